@@ -19,6 +19,10 @@ import (
 	"time"
 )
 
+// ExitInconclusive is the process exit code for an inconclusive run (the
+// check script maps it to 2; a raw 2 is what the Go runtime uses for a crash).
+const ExitInconclusive = 4
+
 // VerifDir is the root of the verification tree (evidence, replay, known findings).
 var VerifDir = "/verif"
 
@@ -179,7 +183,7 @@ func (r *Run) Stage(name string, n int64, fn func(w *Worker, idx int64)) *StageS
 		}
 		w := &Worker{R: r, Stage: name, Cnt: map[string]int64{}, states: map[string]map[uint32]int64{}}
 		w.Idx = r.Replay.Index
-		fn(w, r.Replay.Index)
+		runCase(w, fn, r.Replay.Index)
 		r.evals.Add(w.evals)
 		st.Cases = 1
 		st.Counters = w.Cnt
@@ -236,7 +240,7 @@ func (r *Run) Stage(name string, n int64, fn func(w *Worker, idx int64)) *StageS
 					w.Idx = idx
 					w.curT.Store(time.Now().UnixNano())
 					w.curIdx.Store(idx)
-					fn(w, idx)
+					runCase(w, fn, idx)
 					done.Add(1)
 					if r.Aborted() {
 						break
@@ -274,6 +278,22 @@ func (r *Run) Stage(name string, n int64, fn func(w *Worker, idx int64)) *StageS
 		fmt.Fprintf(os.Stderr, "stage %-28s cases=%d wall=%.1fs %v\n", name, st.Cases, st.WallS, st.Counters)
 	}
 	return st
+}
+
+// runCase runs one case; a panic that escapes the monitor's own guards (it
+// can only come from a call into the library under test) is recorded as a
+// violation of the property being checked instead of killing the process.
+func runCase(w *Worker, fn func(w *Worker, idx int64), idx int64) {
+	defer func() {
+		if e := recover(); e != nil {
+			msg := fmt.Sprint(e)
+			stk := string(debug.Stack())
+			w.Fail("panic-in-case", func() *Violation {
+				return &Violation{What: "a call into sipsp panicked while this case was evaluated: " + msg, Stack: stk}
+			})
+		}
+	}()
+	fn(w, idx)
 }
 
 // Eval counts n oracle-judged calls into the library.
@@ -498,7 +518,7 @@ func (r *Run) hang(stage string, idx int64) {
 	}
 	fmt.Printf("INCONCLUSIVE property=%s reason=hang suspect at stage %s case %d not confirmed (replay err=%v, out=%q)\n",
 		r.Prop, stage, idx, err, truncate(string(out), 300))
-	os.Exit(2)
+	os.Exit(ExitInconclusive)
 }
 
 func truncate(s string, n int) string {
@@ -661,7 +681,7 @@ func (r *Run) Finish() int {
 		for _, s := range r.inconcl {
 			fmt.Printf("INCONCLUSIVE property=%s reason=%s\n", r.Prop, s)
 		}
-		return 2
+		return ExitInconclusive
 	}
 	fmt.Printf("HELD property=%s tier=%s seed=%d evaluations=%d distinct_nontrivial=%d stages=%d wall=%.1fs\n",
 		r.Prop, r.Tier, r.Seed, r.evals.Load(), r.distinct(), len(r.stages), wall)
